@@ -23,7 +23,7 @@ time; the client keeps its side open until the last expected reply. Oracle (diff
 equals, byte for byte, the reply stream obtained from direct sockets to the same service(s) - in resolver mode \
 per request from the service the resolver names, GetInfo from the resolver itself - and, after the client closes \
 its side, the bridge exits with status 0. Variant `close right after the last request`: only exit status 0 and \
-`stdout is a prefix of the expected stream` are asserted. Non-trivial: a session that switches target services, \
+`stdout is a prefix of the expected stream` are asserted. Further variants: the service spells its JSON with blanks; the client closes while a 300 ms reply is pending; the client hangs up altogether (stdin and stdout) while a 400 ms reply is pending - exit status 0 in every mode; bytes that arrive only after the client closed its side make the session slow (twice in a row: stuck). Non-trivial: a session that switches target services, \
 streams, or upgrades; distinct by (mode, sequence, client behaviour).";
 
 #[derive(Clone, Copy, Debug, PartialEq, Eq, Hash)]
